@@ -338,12 +338,10 @@ def cmp_datetime(a, b):
         p = dt_instant(a); lo = dt_instant(b, 14 * 60); hi = dt_instant(b, -14 * 60)
         if p < lo: return LT
         if p > hi: return GT
-        if p in (lo, hi) and not KNOWN_OFF: raise Unsure('known:C09-datetime-window-edge-equal')     # finding: exactly 14:00 apart is treated as equal / ordered
         return INDET
     q = dt_instant(b); lo = dt_instant(a, 14 * 60); hi = dt_instant(a, -14 * 60)
     if hi < q: return LT
     if lo > q: return GT
-    if q in (lo, hi) and not KNOWN_OFF: raise Unsure('known:C09-datetime-window-edge-equal')
     return INDET
 
 def _fmt_year(y):
